@@ -393,6 +393,7 @@ static void Tuple_Concat(var self, var obj) {
   foreach (item in obj) {
     t->items[i] = item;
     i++;
+    t->items[i] = Terminal;
   }
   
   t->items[nitems+objlen] = Terminal;
